@@ -492,11 +492,15 @@ def widen (m : Nat) : Nat :=
 
 def boolQ (l : Bool) : QV := .valid (.bool l)
 
+def mkReq (cfg : CliCfg) (method : String) (segs : List Seg) (q : List (String × QV)) (md : List (Nat × Nat))
+    (b : Body) : Req :=
+  { creds := cfg.creds, auth := cfg.auth, pf := false, method := method, segs := segs, slash := false,
+    query := q, md := md, body := b, rpc := cfg.rpc }
+
 /-- the request a client method sends; `none` = it returns an error without sending anything -/
 def build (cfg : CliCfg) (c : Call) : Option Req :=
   let mk (method : String) (segs : List Seg) (q : List (String × QV)) (md : List (Nat × Nat)) (b : Body) : Option Req :=
-    some { creds := cfg.creds, auth := cfg.auth, pf := false, method := method, segs := segs, slash := false,
-           query := q, md := md, body := b, rpc := cfg.rpc }
+    some (mkReq cfg method segs q md b)
   match c with
   | .id => mk "GET" [lit "id"] [] [] .none
   | .version => mk "GET" [lit "version"] [] [] .none
